@@ -239,6 +239,19 @@ def corpus():
                       _call(0, "where", _crit("a")), _call(0, "limit", {"k": "int", "v": 5})]
             cs.append({"steps": [["new", "mutable:%s@%s" % (kind, ep)]] + calls, "theme": "twin", "twin": True, "repeats": []})
         cs.append({"steps": [], "probe": kind, "theme": "probe", "twin": False, "repeats": []})
+    # two immutable=False builders of one class side by side: updating one must not show in the other (class-level state)
+    from harness.c01.world import QUERY_CLASSES as _QC
+    extra = {"ClickHouseQueryBuilder": [_call(0, "distinct_on", _s("b")), ["call", 0, "limit_by", [{"k": "int", "v": 1}, _s("c")], {}], _call(0, "final")],
+             "PostgreSQLQueryBuilder": [_call(0, "distinct_on", _s("b")), _call(0, "returning", _s("*"))],
+             "MySQLQueryBuilder": [_call(0, "modifier", _s("HIGH_PRIORITY")), ["call", 0, "for_update", [], {"of": {"k": "tuple", "v": [_s("t1")]}}]],
+             "MSSQLQueryBuilder": [_call(0, "top", {"k": "int", "v": 3})], "VerticaQueryBuilder": [_call(0, "hint", _s("h"))]}
+    for kind in _QC:
+        cs.append({"steps": [["new", "mutable:" + kind], ["new", "mutable:" + kind], ["new", kind],
+                             _call(1, "from_", _s("t2")), _call(1, "select", _s("z")),
+                             _call(0, "from_", _s("t1")), _call(0, "select", _s("a")), _call(0, "where", _crit("a")),
+                             _call(0, "groupby", _s("a")), _call(0, "orderby", _s("a"))] + extra.get(kind, [])
+                            + [_call(2, "from_", _s("t3")), _call(1, "limit", {"k": "int", "v": 1})],
+                   "theme": "twin", "twin": False, "repeats": []})
     # immutable=False chains with REJECTED calls in the middle: the one object must be left as it was by each of them and
     # the chain must still end in the immutable twin's statement (round-4 red team, C01-15)
     bad_on = {"k": "crit", "f": {"k": "field", "n": "y", "t": _r(3)}, "op": "eq", "v": {"k": "int", "v": 1}}     # names t3: not in the statement
